@@ -31,6 +31,7 @@ type DemuxCfg struct {
 	KeepReads     bool
 	EOFWithData   bool    // the last bytes arrive together with io.EOF
 	ZeroEvery     int     // every k-th Read returns (0, nil)
+	RewindFirst   int     // 1: Rewind before the first call; 2: one NextPacket, then Rewind (seekable readers)
 	Logger        *LogTap // when set: passed with DemuxerOptLogger
 	HasSeekFail   bool
 	SeekFailIdx   int // index of the Seek call that fails (when HasSeekFail)
@@ -154,6 +155,18 @@ func NewDemuxerFor(input []byte, cfg DemuxCfg) (*astits.Demuxer, *mon.RTap) {
 func RunDemux(input []byte, cfg DemuxCfg) *DemuxRun {
 	dmx, tap := NewDemuxerFor(input, cfg)
 	run := &DemuxRun{EOFAt: -1, Tap: tap, Dmx: dmx}
+	if cfg.RewindFirst > 0 {
+		if p, v, st := mon.Guarded(func() {
+			if cfg.RewindFirst == 2 {
+				dmx.NextPacket()
+			}
+			dmx.Rewind()
+		}); p {
+			run.Panic = fmt.Sprintf("%v\n%s", v, st)
+			run.PanicClass = mon.PanicClass(v, st)
+			return run
+		}
+	}
 	max := cfg.MaxCalls
 	if max == 0 {
 		max = len(input) + 64
